@@ -184,3 +184,110 @@ def _nd_kf03(info):
 
 
 ND_PREDICATES["KF03-numba-anyall-float-fill"] = _nd_kf03
+
+
+# ---------------------------------------------------------------- witness probes
+def _probe_kf01():
+    import numpy as np
+    import flox
+    r = np.asarray(flox.groupby_reduce(np.array([1.0, 2.0, 3.0]), np.array([0, 0, 2]), func="sum", expected_groups=np.array([0, 1, 2]),
+                                       fill_value=-5, min_count=0)[0], dtype=float)
+    return not (r[1] == -5)
+
+
+def _probe_kf02():
+    import dask.array as da
+    import numpy as np
+    import flox
+    r = np.asarray(flox.groupby_reduce(da.from_array(np.array([np.nan, 5.0, -np.inf, 7.0]), chunks=2), np.array([0, 1, 0, 1]),
+                                       func="nanargmax")[0].compute())
+    return int(r[0]) != 2
+
+
+def _probe_kf03():
+    import numpy as np
+    import flox
+    try:
+        flox.groupby_reduce(np.array([False, True, True]), np.array([3, 3, 2]), func="all", engine="numba",
+                            expected_groups=np.array([0, 2, 3]), fill_value=np.nan)
+        return False
+    except (ValueError, NotImplementedError):
+        return False
+    except Exception:  # noqa: BLE001
+        return True
+
+
+def _probe_kf04():
+    import numpy as np
+    import flox
+    r = np.asarray(flox.groupby_reduce(np.array([True, False]), np.array([0, 1]), func="nanmin", expected_groups=np.array([0, 1, 7]),
+                                       fill_value=np.nan)[0])
+    return r.dtype == bool
+
+
+def _probe_kf05():
+    import numpy as np
+    import flox
+    r = np.asarray(flox.groupby_reduce(np.array([1.0, np.nan, 3.0, 2.0]), np.array([0, 0, 1, 1]), func="max", engine="numba")[0])
+    return not np.isnan(r[0])
+
+
+def _probe_kf06():
+    import numpy as np
+    import xarray as xr
+    from flox.xarray import xarray_reduce
+    ds = xr.Dataset({"v": (("y", "x"), np.ones((4, 2))), "u": (("x",), [1.0, 2.0]), "p": (("y",), np.arange(4.0))}, coords={"lab": ("x", [0, 0])})
+    r = xarray_reduce(ds, "lab", func="sum", dim=...)
+    return float(r["u"].values[0]) != 3.0
+
+
+def _probe_kf07():
+    import numpy as np
+    import xarray as xr
+    from flox.xarray import xarray_reduce
+    v = xr.DataArray(np.arange(12.0).reshape(2, 2, 3), dims=("z", "y", "x"), coords={"lab": (("x", "z"), np.zeros((3, 2), dtype=int))})
+    with xr.set_options(use_flox=False):
+        n = v.groupby("lab").sum(dim="y")
+    return xarray_reduce(v, "lab", func="sum", dim="y").dims != n.dims
+
+
+def _probe_kf08():
+    import numpy as np
+    import xarray as xr
+    from flox.xarray import xarray_reduce
+    v = xr.DataArray(np.arange(12.0).reshape(3, 2, 2), dims=("x", "y", "z"), coords={"lab": ("x", [0, 1, 0])})
+    r = xarray_reduce(v, "lab", func="mean", dim="z", expected_groups=np.array([-0.5, 2.5]), isbin=True, fill_value=np.nan)
+    return "lab_bins" in r.dims
+
+
+PROBES = {"KF01": _probe_kf01, "KF02": _probe_kf02, "KF03": _probe_kf03, "KF04": _probe_kf04, "KF05": _probe_kf05,
+          "KF06": _probe_kf06, "KF07": _probe_kf07, "KF08": _probe_kf08}
+
+
+def probe_listed(run):
+    """Every run replays the witness of each listed (status=known) finding of its property: the KNOWN-FINDING line is printed
+    iff the witness still fails on the tree under test (a finding that disappeared is recorded in the evidence, not printed).
+    The witnesses run in a fresh interpreter (numba / OpenMP state must not be created in the parent of the worker pools)."""
+    import subprocess
+    ids = [fid for fid, f in FINDINGS.items() if f.get("status") == "known" and run.pid in f.get("properties", []) and fid[:4] in PROBES]
+    if not ids:
+        return
+    code = ("import json, sys, warnings; warnings.simplefilter('ignore'); sys.path.insert(0, '/verif')\n"
+            "from tools.lib import findings as F\nout = {}\n"
+            f"for fid in {ids!r}:\n"
+            "    try:\n        out[fid] = bool(F.PROBES[fid[:4]]())\n"
+            "    except Exception:\n        out[fid] = True\n"
+            "print('PROBES ' + json.dumps(out))\n")
+    try:
+        res = subprocess.run([C.PY, "-c", code], env=C.ENV, capture_output=True, text=True, timeout=600, cwd=str(C.ROOT))
+        line = [l for l in res.stdout.splitlines() if l.startswith("PROBES ")][-1]
+        out = json.loads(line[len("PROBES "):])
+    except Exception as e:  # noqa: BLE001
+        run.extra["listed_findings_probe_error"] = repr(e)[:200]
+        return
+    gone = [fid for fid, still in out.items() if not still]
+    for fid, still in out.items():
+        if still:
+            run.known(fid, describe(fid))
+    if gone:
+        run.extra["listed_findings_whose_witness_no_longer_fails"] = gone
